@@ -71,6 +71,8 @@ type ContractFile struct {
 	Lemmas    map[string]*Lemma
 	LemmaOrd  []string
 	Immutable []string // "<Type>.<field>[.<sub>]": fields written only at construction
+	AssumedInvs []*Clause // closed formulas assumed in every state at cut points (trusted data-structure invariants)
+	NonNilMaps []string // map types whose values are never nil (checked at every MapUpdate under contract, assumed at reads)
 	Path      string
 }
 
@@ -117,6 +119,7 @@ func parseContractFile(path string) (*ContractFile, error) {
 	}
 	var blocks []*block
 	var cur *block
+	var pendingInv *Clause
 	sc := bufio.NewScanner(f)
 	sc.Buffer(make([]byte, 1<<20), 1<<20)
 	ln := 0
@@ -134,6 +137,24 @@ func parseContractFile(path string) (*ContractFile, error) {
 		if body == "" {
 			continue
 		}
+		if strings.HasPrefix(body, "assume-invariant ") {
+			rest := strings.TrimPrefix(body, "assume-invariant ")
+			pendingInv = &Clause{Src: rest, Line: ln}
+			cf.AssumedInvs = append(cf.AssumedInvs, pendingInv)
+			cur = nil
+			continue
+		}
+		if cur == nil && pendingInv != nil && !strings.HasPrefix(body, "func ") && !strings.HasPrefix(body, "pure ") && !strings.HasPrefix(body, "lemma ") && !strings.HasPrefix(body, "immutable ") && !strings.HasPrefix(body, "nonnil-values ") {
+			pendingInv.Src += " " + body
+			continue
+		}
+		if strings.HasPrefix(body, "nonnil-values ") {
+			for _, f := range splitTopComma(strings.TrimPrefix(body, "nonnil-values ")) {
+				cf.NonNilMaps = append(cf.NonNilMaps, f)
+			}
+			cur = nil
+			continue
+		}
 		if strings.HasPrefix(body, "immutable ") {
 			for _, f := range splitTopComma(strings.TrimPrefix(body, "immutable ")) {
 				cf.Immutable = append(cf.Immutable, f)
@@ -142,6 +163,7 @@ func parseContractFile(path string) (*ContractFile, error) {
 			continue
 		}
 		if strings.HasPrefix(body, "func ") || strings.HasPrefix(body, "pure ") || strings.HasPrefix(body, "lemma ") {
+			pendingInv = nil
 			cur = &block{hdr: body, line: ln}
 			blocks = append(blocks, cur)
 			continue
@@ -176,6 +198,19 @@ func parseContractFile(path string) (*ContractFile, error) {
 		}
 		c.E = e
 		return c, nil
+	}
+	for _, inv := range cf.AssumedInvs {
+		src := inv.Src
+		if m := regexp.MustCompile(`^(\w+)\s*:\s*(.*)$`).FindStringSubmatch(src); m != nil {
+			inv.Label = m[1]
+			src = m[2]
+		}
+		inv.Src = src
+		e, err := parseCExpr(src)
+		if err != nil {
+			return nil, fmt.Errorf("%s:%d: %v", path, inv.Line, err)
+		}
+		inv.E = e
 	}
 	for _, b := range blocks {
 		switch {
